@@ -271,10 +271,10 @@ def gen_stage(rng, i):
 def gen_cases(ctx):
     for inp in ctx.corpus():
         yield inp
-    nb = ctx.n(15, 120)
-    ns = ctx.n(130, 3000)
-    nt = ctx.n(130, 3000)
-    ng = ctx.n(200, 4000)
+    nb = ctx.n(16, 150)
+    ns = ctx.n(400, 5000)
+    nt = ctx.n(400, 5000)
+    ng = ctx.n(500, 8000)
     # interleave so that the slow batch cases are spread over the pool
     for i in range(max(ns, nt, ng)):
         if i < nb:
@@ -547,7 +547,8 @@ def run_transpose(ctx, inp):
     if detail and detail.startswith("C08-ep-defect"):
         res.stat("c08_aniso_ep_defect_ep_columns_skipped")
     if bad:
-        if bad[0].startswith("<") and (full_tie(img, kw) or full_tie(imgT, kwT)):
+        if [c for c in bad if c != "ecc"] and (full_tie(img, kw) or full_tie(imgT, kwT)):
+            # rows differ (not only ecc): a full tie of the de-duplication is decided by row order
             res.borderline = True
             res.stat("transpose_full_tie_skipped")
             return res
@@ -777,6 +778,10 @@ def run_stage_maxima_shift(ctx, res, inp):
                           "embedded numpy image (offset %d)" % (k + 1), impl=code[k][:30], model=pts[k][:30],
                           broken="Locate.embed / Find.greyDilation", signature=dict(sig, what="maxima"))
             return
+    if m["emb"] != "1":
+        res.violation("correspondence-break", "Locate.embed does not satisfy the relation IsEmbed the shift "
+                      "theorems assume (isEmbedB)", broken="IsEmbed / isEmbedB_sound",
+                      signature=dict(sig, what="embed-relation"))
     if m["thr1"] != m["thr2"] or m["thr1"] != m["thr0"]:
         res.violation("correspondence-break", "model threshold depends on the offset: %s %s %s"
                       % (m["thr0"], m["thr1"], m["thr2"]), broken="thr_shift", signature=dict(sig, what="thr"))
@@ -829,6 +834,10 @@ def run_stage_maxima_transpose(ctx, res, inp):
                       impl=dict(a=a[:20], b=b[:20]), model=dict(a=p[:20], b=pT[:20]),
                       broken="Locate.revImg / Find.greyDilation", signature=dict(sig, what="maxima"))
         return
+    if m["tr"] == "0":
+        res.violation("correspondence-break", "Locate.revImg does not satisfy the relation IsTranspose "
+                      "(isTransposeB)", broken="IsTranspose / isTransposeB_sound",
+                      signature=dict(sig, what="transpose-relation"))
     if m["same"] != "1":
         res.violation("correspondence-break", "model maxima of the reversed image are not the reversed maxima",
                       model=dict(a=p[:20], b=pT[:20]), broken="maxima_transpose",
